@@ -34,14 +34,22 @@ Definition b64_zero : b64 := B754_zero false.
 Definition b64_one : b64 := Bone.
 
 (* ------------------------------------------------------------------ exchange format: the 64-bit pattern *)
+(* a finite double from its sign, integer significand and exponent; the `bounded` side condition of
+   Flocq's constructor is decided by evaluation (it holds for every pattern decoded below) *)
+Definition b64_finite (s : bool) (m : positive) (e : Z) : b64 :=
+  match bool_dec (SpecFloat.bounded 53 1024 m e) true with
+  | left H => B754_finite s m e H
+  | right _ => B754_nan
+  end.
+
 Definition b64_of_bits (z : Z) : b64 :=
   let s := 2 ^ 63 <=? z in
   let e := (z / 2 ^ 52) mod 2 ^ 11 in
   let m := z mod 2 ^ 52 in
   if e =? 2047 then (if m =? 0 then B754_infinity s else B754_nan)
   else if e =? 0 then
-         (if m =? 0 then B754_zero s else binary_normalize 53 1024 _ _ mode_NE (cond_Zopp s m) (-1074) s)
-       else binary_normalize 53 1024 _ _ mode_NE (cond_Zopp s (m + 2 ^ 52)) (e - 1075) s.
+         (if m =? 0 then B754_zero s else b64_finite s (Z.to_pos m) (-1074))
+       else b64_finite s (Z.to_pos (m + 2 ^ 52)) (e - 1075).
 
 Definition bits_of_b64 (x : b64) : Z :=
   match x with
